@@ -7,6 +7,7 @@ import (
 	"sort"
 	"strings"
 	"sync"
+	"sync/atomic"
 	"time"
 
 	"golang.org/x/tools/go/ssa"
@@ -24,6 +25,7 @@ type WorkItem struct {
 	prefix []Dec
 	pc     []*Term
 	vars   []*Term
+	model  *Model // non-nil: a model of pc is already known (sibling on a fresh variable), no feasibility query needed
 }
 
 type nondetRec struct {
@@ -50,6 +52,10 @@ type Path struct {
 	finding  string
 	notes    []string
 	known    map[uint64][]knownCond
+	ordTerms []*Term
+	hashTerms []*Term
+	used     varBits // variables occurring in the path condition
+	less     []lessFact
 }
 
 // Case is one harness invocation: function + concrete arguments.
@@ -90,6 +96,7 @@ type NondetVal struct {
 	Kind string `json:"k"`
 	Name string `json:"n"`
 	Val  uint64 `json:"v"`
+	Free bool   `json:"f,omitempty"` // occurs in the path condition only below uninterpreted functions (hash/string inputs)
 }
 
 type Violation struct {
@@ -211,17 +218,29 @@ func (e *Engine) Run(cases []*Case) {
 	wg.Wait()
 }
 
+var tAlign, tCheck, tModel, tRun int64
+
 func (w *Worker) runItem(it *WorkItem) {
 	c := it.c
 	s := w.solver
-	q0, t0 := s.Queries, s.Time
-	s.NewItem()
-	model := NewModel(nil)
-	if len(it.pc) > 0 {
-		for _, t := range it.pc {
-			s.Assert(t)
+	ta := time.Now()
+	defer func() {
+		if os.Getenv("GOSX_TIMING") != "" && c.Stats.Started%200 == 1 {
+			fmt.Fprintf(os.Stderr, "TIMING align=%dms check=%dms model=%dms run=%dms\n", tAlign/1e6, tCheck/1e6, tModel/1e6, tRun/1e6)
 		}
-		switch s.Check() {
+	}()
+	q0, t0 := s.Queries, s.Time
+	s.NewItem(it.pc)
+	s.in.Flush()
+	atomic.AddInt64(&tAlign, int64(time.Since(ta)))
+	model := NewModel(nil)
+	if it.model != nil {
+		model = it.model
+	} else if len(it.pc) > 0 {
+		tb := time.Now()
+		r0 := s.Check()
+		atomic.AddInt64(&tCheck, int64(time.Since(tb)))
+		switch r0 {
 		case Unsat:
 			c.mu.Lock()
 			c.Stats.Infeasible++
@@ -238,7 +257,9 @@ func (w *Worker) runItem(it *WorkItem) {
 			c.mu.Unlock()
 			return
 		}
-		vals, ok := s.Model(it.vars)
+		tc := time.Now()
+		m, ok := fetchModel(s, it.vars, it.pc)
+		atomic.AddInt64(&tModel, int64(time.Since(tc)))
 		if !ok {
 			c.mu.Lock()
 			c.Stats.Inconclusive++
@@ -246,7 +267,7 @@ func (w *Worker) runItem(it *WorkItem) {
 			c.mu.Unlock()
 			return
 		}
-		model = NewModel(vals)
+		model = m
 	}
 	in := &Interp{eng: w.eng, w: w, prog: w.eng.prog, globals: map[*ssa.Global]*Value{}, ginit: map[*ssa.Global]bool{},
 		stubs: map[string]int{}, fnCount: map[string]int{}, sites: map[string]int{}}
@@ -254,6 +275,8 @@ func (w *Worker) runItem(it *WorkItem) {
 	in.path = p
 	outcome := "completed"
 	var reason string
+	td := time.Now()
+	defer func() { atomic.AddInt64(&tRun, int64(time.Since(td))) }()
 	func() {
 		defer func() {
 			r := recover()
@@ -390,9 +413,40 @@ func (in *Interp) inputs() []NondetVal {
 	return out
 }
 
+// constrainedVars collects the variables that occur in t outside uninterpreted applications.
+func constrainedVars(t *Term, seen map[*Term]bool, out map[string]bool) {
+	if seen[t] {
+		return
+	}
+	seen[t] = true
+	switch t.op {
+	case OVar:
+		out[t.name] = true
+		return
+	case OApp:
+		if t.name == "H64" || t.name == "G192" || t.name == "IPStr" || t.name == "cat" || t.name == "slt" {
+			return
+		}
+	}
+	for _, a := range t.args {
+		constrainedVars(a, seen, out)
+	}
+}
+
 func (in *Interp) recordViolation(msg string) {
 	p := in.path
-	v := &Violation{Case: p.item.c, Msg: msg, Finding: p.finding, Inputs: in.inputs(), Decs: append([]Dec(nil), p.decs...), Notes: p.notes}
+	inputs := in.inputs()
+	cons := map[string]bool{}
+	seen := map[*Term]bool{}
+	for _, c := range p.pc {
+		constrainedVars(c, seen, cons)
+	}
+	for i := range inputs {
+		if !cons[inputs[i].Name] && (inputs[i].Kind == "Byte" || inputs[i].Kind == "Uint16" || inputs[i].Kind == "Uint32") {
+			inputs[i].Free = true
+		}
+	}
+	v := &Violation{Case: p.item.c, Msg: msg, Finding: p.finding, Inputs: inputs, Decs: append([]Dec(nil), p.decs...), Notes: p.notes}
 	c := p.item.c
 	c.mu.Lock()
 	if len(c.Violations) < 50 {
@@ -417,16 +471,68 @@ func (in *Interp) nondet(kind string, s Sort) *Term {
 
 // refreshModel must be called right after a Sat answer (inside the same solver frame).
 func (in *Interp) refreshModel() {
-	vals, ok := in.w.solver.Model(in.path.vars)
+	m, ok := fetchModel(in.w.solver, in.path.vars, in.path.pc)
 	if !ok {
 		in.abort("solver model unavailable")
 	}
-	in.path.model = NewModel(vals)
+	in.path.model = m
+}
+
+// collectApps gathers the scalar-valued uninterpreted applications occurring in the terms.
+func collectApps(ts []*Term) []*Term {
+	seen := map[*Term]bool{}
+	seenH := map[uint64]bool{}
+	var out []*Term
+	var walk func(t *Term)
+	walk = func(t *Term) {
+		if seen[t] {
+			return
+		}
+		seen[t] = true
+		if t.op == OApp && t.sort != SStr && t.sort <= 64 && len(t.args) > 0 {
+			if !seenH[t.Hash()] {
+				seenH[t.Hash()] = true
+				out = append(out, t)
+			}
+		}
+		for _, a := range t.args {
+			walk(a)
+		}
+	}
+	for _, t := range ts {
+		walk(t)
+	}
+	return out
+}
+
+func fetchModel(s *Solver, vars []*Term, pc []*Term) (*Model, bool) {
+	vals, ok := s.Model(vars)
+	if !ok {
+		return nil, false
+	}
+	m := NewModel(vals)
+	tq := time.Now()
+	apps := collectApps(pc)
+	atomic.AddInt64(&tAlign, int64(time.Since(tq)))
+	if len(apps) > 0 {
+		av, oks, ok := s.Values(apps)
+		if !ok {
+			return nil, false
+		}
+		m.apps = map[uint64][]appVal{}
+		for i, a := range apps {
+			if oks[i] {
+				m.apps[a.Hash()] = append(m.apps[a.Hash()], appVal{a, av[i]})
+			}
+		}
+	}
+	return m, true
 }
 
 func (in *Interp) addPC(c *Term) {
 	p := in.path
 	p.pc = append(p.pc, c)
+	p.used.or(c.VarBits())
 	p.learn(c, true)
 }
 
@@ -454,6 +560,30 @@ func (p *Path) learn(c *Term, val bool) {
 	}
 	h := c.Hash()
 	p.known[h] = append(p.known[h], knownCond{c, val})
+	if (c.op == OUlt || c.op == OSlt) && val {
+		p.less = append(p.less, lessFact{c.op, c.args[0], c.args[1]})
+	}
+}
+
+type lessFact struct {
+	op   Op
+	a, b *Term
+}
+
+// lessPath reports whether a < b follows from the recorded strict-order facts by transitivity.
+func (p *Path) lessPath(op Op, a, b *Term, depth int) bool {
+	if depth == 0 {
+		return false
+	}
+	for _, f := range p.less {
+		if f.op != op || !deepSame(f.a, a) {
+			continue
+		}
+		if deepSame(f.b, b) || p.lessPath(op, f.b, b, depth-1) {
+			return true
+		}
+	}
+	return false
 }
 
 // implied reports whether the truth value of c already follows syntactically from the path condition.
@@ -466,6 +596,44 @@ func (p *Path) implied(c *Term) (bool, bool) {
 	for _, k := range p.known[c.Hash()] {
 		if deepSame(k.t, c) {
 			return k.val == pol, true
+		}
+	}
+	// a little order reasoning: a<b known  =>  not b<a, not a=b
+	lookup := func(t *Term) (bool, bool) {
+		for _, k := range p.known[t.Hash()] {
+			if deepSame(k.t, t) {
+				return k.val, true
+			}
+		}
+		return false, false
+	}
+	switch c.op {
+	case OUlt, OSlt:
+		if p.lessPath(c.op, c.args[0], c.args[1], 5) {
+			return pol, true
+		}
+		if p.lessPath(c.op, c.args[1], c.args[0], 5) {
+			return !pol, true
+		}
+		if v, ok := lookup(&Term{op: c.op, sort: SBool, args: []*Term{c.args[1], c.args[0]}}); ok && v {
+			return !pol, true
+		}
+		if v, ok := lookup(&Term{op: OEq, sort: SBool, args: []*Term{c.args[0], c.args[1]}}); ok && v {
+			return !pol, true
+		}
+		if v, ok := lookup(&Term{op: OEq, sort: SBool, args: []*Term{c.args[1], c.args[0]}}); ok && v {
+			return !pol, true
+		}
+	case OEq:
+		if c.args[0].sort > 0 {
+			for _, op := range []Op{OUlt, OSlt} {
+				if v, ok := lookup(&Term{op: op, sort: SBool, args: []*Term{c.args[0], c.args[1]}}); ok && v {
+					return !pol, true
+				}
+				if v, ok := lookup(&Term{op: op, sort: SBool, args: []*Term{c.args[1], c.args[0]}}); ok && v {
+					return !pol, true
+				}
+			}
 		}
 	}
 	return false, false
@@ -519,7 +687,7 @@ func (in *Interp) decide(c *Term) bool {
 			p.pos++
 			nc := Not(c)
 			in.addPC(nc)
-			s.Assert(nc)
+			s.AssertFrame(nc)
 			return false
 		default:
 			in.abort("solver unknown at branch")
@@ -530,7 +698,22 @@ func (in *Interp) decide(c *Term) bool {
 	if !taken {
 		sib = c
 	}
-	in.pushSibling(Dec{Taken: !taken}, sib)
+	base := c
+	for base.op == ONot {
+		base = base.args[0]
+	}
+	if ok && base.op == OVar && base.sort == SBool && !p.used.has(varIndex(base.name)) && !p.used.over {
+		// decision on a fresh, unconstrained boolean: the sibling is feasible and its model is known
+		m := p.model.clone()
+		if taken == (c.op != ONot) {
+			m.vals[base.name] = 0
+		} else {
+			m.vals[base.name] = 1
+		}
+		in.pushSiblingModel(Dec{Taken: !taken}, sib, m)
+	} else {
+		in.pushSibling(Dec{Taken: !taken}, sib)
+	}
 	p.decs = append(p.decs, Dec{Taken: taken})
 	p.pos++
 	side := c
@@ -538,8 +721,22 @@ func (in *Interp) decide(c *Term) bool {
 		side = Not(c)
 	}
 	in.addPC(side)
-	s.Assert(side)
+	s.AssertFrame(side)
 	return taken
+}
+
+func (in *Interp) pushSiblingModel(d Dec, cond *Term, m *Model) {
+	in.pushSibling(d, cond)
+	// the item just pushed is the last one queued by this call; attach the model
+	in.eng.mu.Lock()
+	for i := len(in.eng.queue) - 1; i >= 0; i-- {
+		it := in.eng.queue[i]
+		if len(it.pc) > 0 && it.pc[len(it.pc)-1] == cond {
+			it.model = m
+			break
+		}
+	}
+	in.eng.mu.Unlock()
 }
 
 func (in *Interp) pushSibling(d Dec, cond *Term) {
@@ -609,7 +806,7 @@ func (in *Interp) concretize(t *Term) uint64 {
 		p.decs = append(p.decs, Dec{Taken: true, Val: v, IsVal: true})
 		p.pos++
 		in.addPC(eq)
-		s.Assert(eq)
+		s.AssertFrame(eq)
 		if !ok {
 			// model may not satisfy eq for UF-dependent t: re-check
 			if s.Check() != Sat {
@@ -626,10 +823,14 @@ func (in *Interp) choose(n int, kind string) int {
 	if n <= 1 {
 		return 0
 	}
-	w := Sort(8)
-	v := in.nondet(kind, w)
-	in.assume(Cmp(OUlt, v, BV(w, uint64(n))))
-	return int(in.concretize(v))
+	// a chain of decisions on fresh booleans: no solver involvement
+	for i := 0; i < n-1; i++ {
+		b := in.nondet(kind, SBool)
+		if in.decide(b) {
+			return i
+		}
+	}
+	return n - 1
 }
 
 // pathBit returns a nondeterministic bit that is chosen once per path and label.
@@ -658,10 +859,10 @@ func (in *Interp) assume(c *Term) {
 	s := in.w.solver
 	if v, ok := p.model.Eval(c); ok && v == 1 {
 		in.addPC(c)
-		s.Assert(c)
+		s.AssertFrame(c)
 		return
 	}
-	s.Assert(c)
+	s.AssertFrame(c)
 	in.addPC(c)
 	switch s.Check() {
 	case Sat:
